@@ -15,8 +15,9 @@ use isograph_schema::{
     IsographDatabase, Loadability, NameAndArguments, NormalizationKey, PathToRefetchField,
     RefetchedPathsMap, VariableContext, categorize_field_loadability,
     client_scalar_selectable_selection_set_for_parent_query, flattened_entity_named,
-    refetch_strategy_for_client_scalar_selectable_named, selectable_named,
-    selectable_reader_selection_set, transform_arguments_with_child_context,
+    initial_variable_context, refetch_strategy_for_client_scalar_selectable_named,
+    selectable_named, selectable_reader_selection_set, transform_arguments_with_child_context,
+    transform_name_and_arguments_with_child_variable_context,
 };
 use pico::MemoRef;
 use prelude::Postfix;
@@ -821,8 +822,12 @@ fn refetched_paths_for_client_scalar_selectable<TCompilationProfile: Compilation
     // Here, path is acting as a prefix. We will receive (for example) foo.bar, and
     // the client field may have a refetch query at baz.__refetch. In this case,
     // this method would return something containing foo.bar.baz.__refetch
-    // TODO return a BTreeSet
-    let path_set = refetched_paths_with_path(
+    //
+    // The reader artifact of the nested client field refers to its refetch queries by their
+    // index among its own paths, which are expressed in terms of its own variables. So the
+    // paths are returned in that order. (Replacing the variables by what the parent passes
+    // can change how the paths compare to each other, and can make some of them equal.)
+    let mut local_paths: Vec<_> = refetched_paths_with_path(
         db,
         nested_client_scalar_selectable.parent_entity_name,
         &client_scalar_selectable_selection_set_for_parent_query(
@@ -831,13 +836,37 @@ fn refetched_paths_for_client_scalar_selectable<TCompilationProfile: Compilation
             nested_client_scalar_selectable.name,
         )
         .expect("Expected selection set to be valid."),
-        path,
-        client_scalar_selectable_variable_context,
-    );
+        &mut vec![],
+        &initial_variable_context(&nested_client_scalar_selectable.scalar_selected()),
+    )
+    .into_iter()
+    .collect();
+    local_paths.sort();
 
-    let mut paths: Vec<_> = path_set.into_iter().collect();
-    paths.sort();
-    paths
+    local_paths
+        .into_iter()
+        .map(|local_path| {
+            let mut linked_fields = path.clone();
+            linked_fields.extend(local_path.linked_fields.iter().map(|normalization_key| {
+                normalization_key.transform_with_parent_variable_context(
+                    client_scalar_selectable_variable_context,
+                )
+            }));
+            PathToRefetchField {
+                linked_fields,
+                field_name: match local_path.field_name {
+                    SelectionType::Scalar(name) => name.scalar_selected(),
+                    SelectionType::Object(name_and_arguments) => {
+                        transform_name_and_arguments_with_child_variable_context(
+                            name_and_arguments,
+                            client_scalar_selectable_variable_context,
+                        )
+                        .object_selected()
+                    }
+                },
+            }
+        })
+        .collect()
 }
 
 fn refetched_paths_with_path<TCompilationProfile: CompilationProfile>(
